@@ -175,7 +175,7 @@ func c35LinkTail(t *rapid.T, multi bool) string {
 	}
 	var dest string
 	dk := c35Uniform(t, "destk", 10)
-	destAtoms := []string{"/url", "a", "b", "(c)", "(", ")", "\\(", "\\)", "&amp;", "&", "%20", "%C3%A9x", "é", "#f", "?q=1", "\\", "\\\\", "*", "_", "`", "\"", "'", "[", "]", "!", "\\a", "&#35;", "&x;", "..", ":", "((", "))", "\\<", "\\>", "{", "}", "|", "^", "~"}
+	destAtoms := []string{"/url", "a", "b", "(c)", "(", ")", "\\(", "\\)", "&amp;", "&", "%20", "%C3%A9x", "é", "#f", "?q=1", "\\", "\\\\", "*", "_", "`", "\"", "'", "[", "]", "!", "\\a", "&#35;", "&x;", "..", ":", "((", "))", "\\<", "\\>", "{", "}", "|", "^", "~", "\x7f", "a\x7fb"}
 	switch {
 	case dk < 5:
 		n := rapid.IntRange(1, 4).Draw(t, "dest#")
@@ -243,7 +243,9 @@ func c35Blocks(t *rapid.T, depth int) []string {
 			case k < 8:
 				lines = append(lines, "", "")
 			case k < 9:
-				lines = append(lines, c35Pick(t, "blankws", " ", "  ", "    ", "     "))
+				// blank lines of spaces; lines of Unicode white space other than
+				// space and tab are NOT blank (CommonMark 2.1): they are text
+				lines = append(lines, c35Pick(t, "blankws", " ", "  ", "    ", "     ", " ", "  ", "\u00a0", "\u3000", " \u00a0", "\u2003\u00a0", "\u0085", "\u00a0 "))
 			}
 		}
 		lines = append(lines, c35Block(t, depth)...)
@@ -500,6 +502,7 @@ var c35SoupTokens = []string{
 	"[", "]", "(", ")", "![", "](", "](/u)", "](/u \"t\")", "](<a b>)", "[]", "()", "[a](b)", "![a](b)",
 	"*", "**", "***", "_", "__", "`", "``", "\\", "\\\n", "  \n", "\\*", "\\[", "\\`",
 	"&amp;", "&#35;", "&#x2A;", "&", "&lt;", "&NewLine;", "&nbsp;",
+	"\n\u00a0\n", "\n\u3000\n", "\u00a0", "\n \u2003\n",
 	"a", "b", "foo", "é", "世", "1", "!", "\"", "'", ":", ".", "=", "{", "}", "/", "|", "~", "^", "$", "%", "@", ",", ";", "?", "+",
 }
 
